@@ -20,6 +20,25 @@ pub fn build(rng: &mut Rng, nconn: usize, transitions: bool) -> Built {
     build_with(rng, nconn, transitions, false, false)
 }
 
+/// Like `build_with`, but the single calls of the clients that do not flood are big (16 .. 100 KB: the server
+/// needs dozens to hundreds of reads to take one in), while the flooders' calls stay tiny.
+pub fn build_big_victims(rng: &mut Rng, nconn: usize) -> Built {
+    let mut b = build_with(rng, nconn, false, false, false);
+    let nflood = b.scn.conns.iter().filter(|c| c.calls.len() >= 4).count().max(1);
+    for (i, c) in b.scn.conns.iter_mut().enumerate() {
+        if i >= nflood || c.calls.len() < 4 {
+            for k in c.calls.iter_mut() {
+                if k.kind == Kind::Echo {
+                    k.payload = "v".repeat(*rng.pick(&[16_000usize, 17_000, 33_000, 40_000, 70_000, 100_000]) + rng.below(300));
+                }
+            }
+            // whole frames per delivery, as before
+            c.cuts = frame_cuts(&c.stream(i as u32));
+        }
+    }
+    b
+}
+
 /// `oneway_flood`: the flooders' calls are all oneway; `monitor`: one extra connection subscribes to a
 /// stream that produces an item from inside (almost) every `handle()` call and never ends, like a
 /// client watching every state change.
@@ -392,6 +411,20 @@ pub fn run(cfg: &Cfg) -> Report {
         check(&b.scn, &mut rep, &mut orders);
         if k % 5000 == 1 {
             rep.sample(8, || json!({"kind": "random", "scenario": b.scn.describe()}));
+        }
+    }
+    // (2b) big calls of the clients that do not flood
+    let n_big = cfg.n(3000, 200_000);
+    for k in 0..n_big {
+        let nconn = rng.range(2, 4);
+        let mut b = build_big_victims(&mut rng, nconn);
+        b.scn.wake = rng.chance(1, 3);
+        let order = random_interleaving(&b.chains, &mut rng);
+        b.scn.steps = order.into_iter().map(|e| Step { ev: e, mode: *rng.pick(&[Mode::Batch, Mode::InHandle, Mode::InHandle, Mode::Quiesce]) }).collect();
+        rep.count("cases_with_big_calls_of_the_non_flooders");
+        check(&b.scn, &mut rep, &mut orders);
+        if k == 0 {
+            rep.sample(9, || json!({"kind": "big-victims", "scenario": b.scn.describe().chars().take(600).collect::<String>()}));
         }
     }
     // (3) open streams next to a client that keeps the server busy
